@@ -37,6 +37,7 @@ def node_class(kind, max_depth, base="Schema", extra_opts=None):
            "dictf": "Dict[float, '%s'] = Field(default_factory=dict)" % name,
            "dictd": "Dict[Decimal, '%s'] = Field(default_factory=dict)" % name,
            "dictb": "Dict[bool, '%s'] = Field(default_factory=dict)" % name,
+           "dictn": "Dict[Optional[str], '%s'] = Field(default_factory=dict)" % name,
            "listopt": "List[Optional['%s']] = Field(default_factory=list)" % name}[kind]
     okw = dict(extra_opts or {})
     if max_depth is not None:
@@ -53,6 +54,8 @@ def tree_input(rng, kind, depth, bad_leaf=False, width=2):
     if depth <= 1:
         if bad_leaf:
             node["v"] = "x"
+        elif kind == "union" and rng.random() < 0.6:
+            node["link"] = rng.choice([5, "5", None, "7", 2.0])      # a scalar arm of the union, some needing conversion
         return node
     def child(d):
         return tree_input(rng, kind, d, bad_leaf, width)
@@ -64,9 +67,10 @@ def tree_input(rng, kind, depth, bad_leaf=False, width=2):
         n = rng.randint(1, width)
         deep = rng.randrange(n)
         node["link"] = tuple(child(depth - 1) if i == deep else child(rng.randint(1, depth - 1)) for i in range(n))
-    elif kind in ("dict", "dictf", "dictd", "dictb"):
+    elif kind in ("dict", "dictf", "dictd", "dictb", "dictn"):
         pool = {"dict": ["", "a", "b", "0"], "dictf": [1.5, "2.5", 0.0, 3], "dictd": ["1.5", 0, "2"],
-                "dictb": [True, False, "true", 0]}[kind]
+                "dictb": [True, False, "true", 0], "dictn": [None, "a", "", None]}[kind]
+        pool = list(dict.fromkeys(pool))
         keys = rng.sample(pool, rng.randint(1, min(width, len(pool))))
         deep = rng.choice(keys)
         node["link"] = {k: (child(depth - 1) if k == deep else child(rng.randint(1, depth - 1))) for k in keys}
